@@ -69,7 +69,7 @@ Lemma v3000_parse_atom_line_nz line a : V3000.parse_atom_line line = ok (Some a)
 Proof.
   unfold V3000.parse_atom_line. intros H.
   do 3 inv_step H. inv_step H.
-  inv_step H. do 4 inv_step H. inv_step H. do 3 inv_step H.
+  inv_step H. do 4 inv_step H. inv_step H. do 3 inv_step H. inv_step H.
   injection H as <-. unfold ratom_nz; simpl. repeat split; apply last_nonzero_nz.
 Qed.
 
